@@ -148,3 +148,82 @@ func (f *Frame) siteContinue(li *loopInfo, latch *ssa.BasicBlock, guard string, 
 		f.assertObl("site", lbl, s.Tags, guard, t, "")
 	}
 }
+
+// site exit <loop key | #n> LABEL: requires <expr>: must hold whenever the loop is left through its own exit
+// condition (an edge from the loop header to a block outside the loop; `return` and `break` inside the body are not
+// exits in this sense).  Typical use: "the loop stops only after the last element / the full budget was used".
+func (f *Frame) siteExit(b *ssa.BasicBlock, si int, succ *ssa.BasicBlock) {
+	rc := f.rootContract()
+	if rc == nil || f.contract == nil {
+		return
+	}
+	li := f.loops[b.Index]
+	if li == nil || li.header != b || li.blocks[succ.Index] {
+		return
+	}
+	for _, s := range rc.Sites {
+		if s.Kind != "exit" || !(s.Pattern == li.key || s.Pattern == fmt.Sprintf("#%d", li.ordinal)) {
+			continue
+		}
+		guard := and(f.endGuard[b.Index], f.edgeCondOf(b, si))
+		env := f.envAt(f.endState[b.Index], nil)
+		t, err := env.evalBool(s.Expr)
+		if err != nil {
+			f.vc.unbound = append(f.vc.unbound, fmt.Sprintf("%s: site exit %s: %v", f.key, s.Pattern, err))
+			continue
+		}
+		lbl := f.label("site", "exit:"+s.Pattern+":"+s.Label)
+		f.assertObl("site", lbl, s.Tags, guard, t, "")
+	}
+}
+
+// loopphi(k): the k-th loop-carried variable (phi) of the loop an invariant belongs to, whatever it is called in
+// the source; lets an invariant about the induction variable survive a renaming of that variable.
+func init() {
+	extCalls["loopphi"] = func(e *Env, x *Expr) (Bound, error) {
+		if len(x.Args) != 1 || x.Args[0].Op != "int" {
+			return Bound{}, fmt.Errorf("loopphi(k)")
+		}
+		if e.loop == nil || e.f == nil {
+			return Bound{}, fmt.Errorf("loopphi outside a loop invariant")
+		}
+		k := 0
+		fmt.Sscanf(x.Args[0].Name, "%d", &k)
+		if k < 0 || k >= len(e.loop.phis) {
+			return Bound{}, fmt.Errorf("the loop has %d loop-carried variables", len(e.loop.phis))
+		}
+		ph := e.loop.phis[k]
+		return Bound{V: e.f.vals[ph], T: ph.Type()}, nil
+	}
+}
+
+// captured("name"): the value of a local or captured variable whose name collides with a contract keyword
+// (a variable called "result").
+func init() {
+	extCalls["captured"] = func(e *Env, x *Expr) (Bound, error) {
+		if len(x.Args) != 1 || x.Args[0].Op != "str" {
+			return Bound{}, fmt.Errorf("captured(\"name\")")
+		}
+		if e.lookup != nil {
+			if b, ok := e.lookup(x.Args[0].Name); ok {
+				return b, nil
+			}
+		}
+		return Bound{}, fmt.Errorf("unknown variable %q", x.Args[0].Name)
+	}
+}
+
+// blocking(): inside a `site send` condition, the send waits until it can proceed (a plain send, or a case of a
+// select without default); false for a send that is dropped when the receiver is not ready.
+func init() {
+	extCalls["blocking"] = func(e *Env, x *Expr) (Bound, error) {
+		if e.f == nil {
+			return Bound{}, fmt.Errorf("blocking() outside a send site")
+		}
+		t := "true"
+		if e.f.sendNonBlocking {
+			t = "false"
+		}
+		return Bound{V: Val{t, "Bool"}, T: types.Typ[types.Bool]}, nil
+	}
+}
